@@ -137,7 +137,7 @@ def read_text(text, extra_files=None, want_trace=False):
 @core.safe
 def worker(arg):
     block, mod = arg
-    if mod > 1 and hash(block) % mod:
+    if not core.sampled(block, mod):
         return None
     st = tlaval.parse_state_block(block)
     if st["ph"] < 2:
